@@ -37,7 +37,8 @@ func TestVerif_C22(t *testing.T) {
 		"the harness owns the schedule at statement granularity (one statement of one session at a time); true parallel execution is the separate goroutine variant",
 		"a transaction writes to one branch only (dolt rejects commits that changed several branches); writes to a second branch are not generated",
 		"SET autocommit=1 is not issued while the session has pending writes or is inside BEGIN; after a dolt_commit inside BEGIN the session's next statement is COMMIT or ROLLBACK (the properties do not define those corner semantics)",
-		"branches and tables are created before the sessions start; no DDL, no branch creation during the schedule")
+		"branches and tables are created before the sessions start; no DDL, no branch creation during the schedule",
+		"known finding C22-autocommit-stale-tx-after-failed-dml (open): after a failed DML in an autocommit session the session's next statement is ROLLBACK; counted in excluded_known")
 	defer rec.Write(t)
 	dir, cleanup := vh.ScratchDir(t, "c22")
 	defer cleanup()
@@ -50,7 +51,7 @@ func TestVerif_C22(t *testing.T) {
 	defer admin.Close()
 	cfg := c22Cfg()
 	t.Run("pinned_stale_read_after_failed_autocommit_dml", func(t *testing.T) { txPinnedStaleRead(t, srv, admin) })
-	vh.Check(t, "schedule", 300, 700, func(rt *rapid.T) {
+	vh.Check(t, "schedule", 260, 400, func(rt *rapid.T) {
 		txRunCase(rt, srv, admin, cfg, rec)
 	})
 }
